@@ -25,7 +25,16 @@ use std::sync::Arc;
 use std::sync::atomic::{AtomicU64, Ordering};
 use std::time::Duration;
 use tokio::io::{AsyncBufReadExt, AsyncWriteExt};
-use tokio::net::UnixStream;
+use tokio::net::{TcpStream, UnixStream};
+
+/// where the sessions of a scenario connect to: the unix socket or the TCP endpoint of the server
+#[derive(Clone)]
+pub enum Target {
+    Unix(PathBuf),
+    Tcp(u16),
+}
+type RdHalf = Box<dyn tokio::io::AsyncRead + Unpin + Send>;
+type WrHalf = Box<dyn tokio::io::AsyncWrite + Unpin + Send>;
 use tokio::sync::{Barrier, Mutex, Notify, oneshot};
 use worterbuch::{UnixEndpoint, spawn_worterbuch};
 use worterbuch_common as wc;
@@ -48,6 +57,17 @@ struct SessState {
 struct Shared {
     clock: AtomicU64,
     names: Mutex<Names>,
+}
+
+/// is some socket listening on this TCP port? (read-only: /proc/net/tcp)
+fn tcp_listening(port: u16) -> bool {
+    let tag = format!(":{port:04X}");
+    std::fs::read_to_string("/proc/net/tcp")
+        .map(|t| t.lines().skip(1).any(|l| {
+            let f: Vec<&str> = l.split_whitespace().collect();
+            f.len() > 3 && f[1].ends_with(&tag) && f[3] == "0A"
+        }))
+        .unwrap_or(true)
 }
 
 fn tick(sh: &Shared) -> u64 {
@@ -155,7 +175,7 @@ struct Session {
 }
 
 async fn reader_task(
-    rd: tokio::net::unix::OwnedReadHalf,
+    rd: RdHalf,
     st: Arc<Mutex<SessState>>,
     notify: Arc<Notify>,
     sh: Arc<Shared>,
@@ -253,19 +273,31 @@ fn mint_token(secret: &str, claims: &Value) -> String {
 async fn run_session(
     name: String,
     items: Vec<Value>,
-    path: PathBuf,
+    path: Target,
     sh: Arc<Shared>,
     barriers: Arc<HashMap<u64, Arc<Barrier>>>,
     secret: Option<String>,
-) -> (String, Arc<Mutex<SessState>>, Option<tokio::net::unix::OwnedWriteHalf>, Arc<Notify>) {
+) -> (String, Arc<Mutex<SessState>>, Option<WrHalf>, Arc<Notify>) {
     let st = Arc::new(Mutex::new(SessState::default()));
     let notify = Arc::new(Notify::new());
     st.lock().await.open_inv = tick(&sh);
-    let stream = match UnixStream::connect(&path).await {
-        Ok(s) => s,
-        Err(_) => return (name, st, None, notify),
+    let (rd, mut wr): (RdHalf, WrHalf) = match &path {
+        Target::Unix(p) => match UnixStream::connect(p).await {
+            Ok(s) => {
+                let (r, w) = s.into_split();
+                (Box::new(r), Box::new(w))
+            }
+            Err(_) => return (name, st, None, notify),
+        },
+        Target::Tcp(port) => match TcpStream::connect(("127.0.0.1", *port)).await {
+            Ok(s) => {
+                s.set_nodelay(true).ok();
+                let (r, w) = s.into_split();
+                (Box::new(r), Box::new(w))
+            }
+            Err(_) => return (name, st, None, notify),
+        },
     };
-    let (rd, mut wr) = stream.into_split();
     let (wtx, wrx) = oneshot::channel();
     tokio::spawn(reader_task(rd, st.clone(), notify.clone(), sh.clone(), wtx));
     let cid = match tokio::time::timeout(Duration::from_secs(10), wrx).await {
@@ -407,6 +439,15 @@ async fn run_scenario(sc: Value, sock: PathBuf, meaning: Map<String, Value>) -> 
     let mut cfg = base_config().await;
     cfg.unix_endpoint = Some(UnixEndpoint { path: sock.clone() });
     cfg.unix_disabled = false;
+    // "transport": "tcp": the sessions use the server's TCP endpoint instead of the unix socket
+    let tcp = sc["transport"].as_str() == Some("tcp");
+    let mut tcp_port = 0u16;
+    if tcp {
+        tcp_port = std::net::TcpListener::bind("127.0.0.1:0").and_then(|l| l.local_addr()).map(|a| a.port()).unwrap_or(0);
+        cfg.tcp_endpoint = Some(worterbuch::Endpoint { tls: false, bind_addr: [127, 0, 0, 1].into(), port: tcp_port });
+        cfg.tcp_disabled = false;
+    }
+    let target = if tcp { Target::Tcp(tcp_port) } else { Target::Unix(sock.clone()) };
     let secret = sc["auth"]["secret"].as_str().map(|x| x.to_owned());
     if let Some(sec) = &secret {
         cfg.auth_token_key = Some(sec.clone());
@@ -433,7 +474,9 @@ async fn run_scenario(sc: Value, sock: PathBuf, meaning: Map<String, Value>) -> 
     };
     // wait for the socket to appear
     for _ in 0..500 {
-        if sock.exists() {
+        // (no probe connection: it would be a session of its own)
+        let up = if tcp { tcp_listening(tcp_port) && sock.exists() } else { sock.exists() };
+        if up {
             break;
         }
         tokio::time::sleep(Duration::from_millis(5)).await;
@@ -454,7 +497,7 @@ async fn run_scenario(sc: Value, sock: PathBuf, meaning: Map<String, Value>) -> 
     let mut handles = vec![];
     for (name, items) in sessions {
         let items = items.as_array().cloned().unwrap_or_default();
-        handles.push(tokio::spawn(run_session(name, items, sock.clone(), sh.clone(), barriers.clone(), secret.clone())));
+        handles.push(tokio::spawn(run_session(name, items, target.clone(), sh.clone(), barriers.clone(), secret.clone())));
     }
     let mut done = vec![];
     for h in handles {
@@ -484,7 +527,7 @@ async fn run_scenario(sc: Value, sock: PathBuf, meaning: Map<String, Value>) -> 
     }
     // ... and every live subscription is flushed by a marker publish on a key it matches,
     // issued by the harness' own admin session and awaited on the subscription's stream
-    let (admin, exact) = run_markers(&done, &sock, &sh, secret.is_some()).await;
+    let (admin, exact) = run_markers(&done, &target, &sh, secret.is_some()).await;
     // answers to acquire-lock requests come from tasks of their own (grant or cancellation), not in
     // line with the session's other answers: give the outstanding ones a moment
     for _ in 0..60 {
@@ -525,7 +568,8 @@ async fn run_scenario(sc: Value, sock: PathBuf, meaning: Map<String, Value>) -> 
     subsys.request_global_shutdown();
     let clean = tokio::time::timeout(Duration::from_secs(10), server).await.map(|r| r.unwrap_or(false)).unwrap_or(false);
     let res = json!({"sessions": sess_out, "streams": streams, "lsstreams": lsstreams, "extra": extra, "exact": exact,
-           "auth_required": secret.is_some(), "server_clean_exit": clean, "extmon": b(&sc, "extmon")});
+           "auth_required": secret.is_some(), "server_clean_exit": clean, "extmon": b(&sc, "extmon"),
+           "proto": if tcp { "TCP" } else { "UNIX" }});
     let names = sh.names.lock().await;
     names.translate(&res)
 }
@@ -533,11 +577,11 @@ async fn run_scenario(sc: Value, sock: PathBuf, meaning: Map<String, Value>) -> 
 /// the admin session: for every live subscription of an open session publish a marker on a
 /// matching key and wait until the subscription's stream shows it
 async fn run_markers(
-    done: &[(String, Arc<Mutex<SessState>>, Option<tokio::net::unix::OwnedWriteHalf>, Arc<Notify>)],
-    sock: &PathBuf,
+    done: &[(String, Arc<Mutex<SessState>>, Option<WrHalf>, Arc<Notify>)],
+    sock: &Target,
     sh: &Arc<Shared>,
     secret_set: bool,
-) -> (Option<(String, Arc<Mutex<SessState>>, Option<tokio::net::unix::OwnedWriteHalf>, Arc<Notify>)>, Vec<String>) {
+) -> (Option<(String, Arc<Mutex<SessState>>, Option<WrHalf>, Arc<Notify>)>, Vec<String>) {
     // collect live subscriptions: acked sub/psub without a later acked unsub, session still open
     let mut targets: Vec<(usize, u64, Vec<String>)> = vec![];
     for (i, (_name, st, wr, _)) in done.iter().enumerate() {
